@@ -78,6 +78,6 @@ def replay(path):
     ctx = V.Ctx(PROP, "quick", 0)
     try:
         pre(ctx)
-        return V.replay(PROP, COMPS, path)
+        return V.replay(PROP, COMPS, path, SPEC)
     finally:
         ctx.cleanup()
